@@ -46,6 +46,57 @@ def _(c):
     c.ensures("stale-buffer-dropped", "implies(not result, self._partition_records is None)")
     c.ensures("valid-buffer-kept", "implies(result, self._partition_records == old(self._partition_records))")
     c.ensures("nothing-else-touched", "same_heap('TPState') and same_heap('PartitionRecords') and same_heap('Assignment')")
+    c.replay_fn = lambda model, ob=None: {"script": _CHECK_ASSIGNMENT_SCRIPT}
+
+
+# replay: the real check_assignment / getone / getall over a real assignment in every state the gate distinguishes
+_CHECK_ASSIGNMENT_SCRIPT = '''
+import asyncio, logging
+logging.disable(logging.CRITICAL)
+from aiokafka.consumer.fetcher import FetchResult, PartitionRecords
+from aiokafka.consumer.subscription_state import SubscriptionState
+from aiokafka.record.memory_records import MemoryRecords
+from aiokafka.record.default_records import _DefaultRecordBatchBuilderPy
+from aiokafka.structs import TopicPartition
+def batch(base, n):
+    b = _DefaultRecordBatchBuilderPy(magic=2, compression_type=0, is_transactional=0, producer_id=-1, producer_epoch=-1,
+                                     base_sequence=-1, batch_size=1 << 16)
+    for i in range(n): b.append(i, 1000 + i, None, b"v%d" % i, [])
+    raw = bytearray(b.build()); raw[0:8] = (base).to_bytes(8, "big"); return bytes(raw)
+async def main():
+    bad = []
+    tp = TopicPartition("t", 0)
+    for what in ("live", "paused", "sought-elsewhere", "assignment-replaced", "unsubscribed"):
+        for how in ("getone", "getall"):
+            subs = SubscriptionState()
+            subs.assign_from_user({tp})
+            assignment = subs.subscription.assignment
+            st = assignment.state_value(tp)
+            st.reset_to(10)
+            pr = PartitionRecords(tp, MemoryRecords(batch(10, 3)), [], 10, None, None, True, 0)
+            res = FetchResult(tp, assignment=assignment, partition_records=pr, backoff=0)
+            before = st.position
+            if what == "paused": st.pause()
+            elif what == "sought-elsewhere": st.seek(11)
+            elif what == "assignment-replaced": subs.unsubscribe(); subs.assign_from_user({tp}); subs.subscription.assignment.state_value(tp).reset_to(10)
+            elif what == "unsubscribed": subs.unsubscribe()
+            got = res.getone() if how == "getone" else res.getall()
+            got = [] if got is None else (got if isinstance(got, list) else [got])
+            if what == "live":
+                if [r.offset for r in got] != ([10] if how == "getone" else [10, 11, 12]):
+                    bad.append("%s, %s: handed out %r" % (what, how, [r.offset for r in got]))
+            else:
+                if got:
+                    bad.append("%s, %s: records %r of the stale buffer were handed out" % (what, how, [r.offset for r in got]))
+                cur = subs.subscription.assignment.state_value(tp) if subs.subscription is not None and what == "assignment-replaced" else st
+                want = {"paused": 10, "sought-elsewhere": 11, "assignment-replaced": 10, "unsubscribed": before}[what]
+                if what != "unsubscribed" and cur.position != want:
+                    bad.append("%s, %s: the position moved to %r" % (what, how, cur.position))
+    return bad
+bad = asyncio.run(main())
+VIOLATED = bool(bad)
+DETAIL = "hand-out gate of a fetched buffer: %r" % (bad[:3],) if bad else "ok"
+'''
 
 
 @contract(MOD + ":FetchResult._update_position", ["C03", "C04"])
